@@ -60,8 +60,7 @@ def _order_terms(e, pol=1, rank=0, out=None):
     return out
 
 
-def r1_heap_order(ck, F):
-    R = "C06-R1"
+def r1_heap_order(ck, F, R="C06-R1"):
     b = F.body(A("merger_entry_cmp"))
     e = b.expr_at_return()
     terms = sorted(_order_terms(e))
@@ -81,8 +80,7 @@ def r1_heap_order(ck, F):
     ck.ob(R, "eq-delegates", len(cs) == 1, "eq is defined through cmp", pe)
 
 
-def r2_seed(ck, F):
-    R = "C06-R2"
+def r2_seed(ck, F, R="C06-R2"):
     b = F.body(A("merger_into_iter"))
     ags = [(s, rv) for bb, s, rv in aggregates(F, "merger::Entry") if bb.path == b.path]
     ck.exact(R, "Entry constructions", len(ags), 1, F.config)
@@ -141,8 +139,7 @@ def r3_builder(ck, F):
         ck.ob(R, "sources-start-empty", is_call(e, "Vec::<T>::new"), "a new builder has no sources", bb, s, nontrivial=False)
 
 
-def r4_merge_once(ck, F):
-    R = "C06-R4"
+def r4_merge_once(ck, F, R="C06-R4"):
     b = F.body(A("merger_iter_next"))
     ms = calls(b, "MergeFunction::merge")
     ck.exact(R, "merge call sites in MergerIter::next", len(ms), 1, F.config)
@@ -199,8 +196,7 @@ def r4_merge_once(ck, F):
         ck.ob(R, "yields-buffers", ok and b.dominates(m, s), "the entry yielded is (current_key, merged_value), after the merge", b, s)
 
 
-def r5_pop_push(ck, F):
-    R = "C06-R5"
+def r5_pop_push(ck, F, R="C06-R5"):
     b = F.body(A("merger_iter_next"))
     pops = sorted(calls(b, "BinaryHeap::<T, A>::pop"), key=lambda x: x[0].key())
     ck.exact(R, "heap pops in MergerIter::next", len(pops), 2, F.config)
@@ -281,8 +277,7 @@ def stream_loop(ck, R, F, b, tag):
     ck.ob(R, f"stream-until-none/{tag}", sw is not None and b.dominates(sw.get("Some", -1), ins[0][0].bb), f"{tag}: every Some is inserted; the loop ends at the first None", b)
 
 
-def r6_stream(ck, F):
-    R = "C06-R6"
+def r6_stream(ck, F, R="C06-R6"):
     stream_loop(ck, R, F, F.body(A("merger_stream")), "Merger::write_into_stream_writer")
     stream_loop(ck, R, F, F.body(A("sorter_stream")), "Sorter::write_into_stream_writer")
     stream_loop(ck, R, F, F.body(A("sorter_merge_chunks")), "Sorter::merge_chunks")
